@@ -179,8 +179,17 @@ func (s *sim) audit(n *node, ctx string, o auditOpts) {
 	if o.post && stH != height {
 		e.Fail("C18", "state-out-of-step", "%s: after the handshake the state is at %d, the block store at %d", ctx, stH, height)
 	}
+	baseSig := "base-block-missing"
 	if bm := bs.LoadBaseMeta(); bm == nil || bm.Header.Height != base {
-		e.Fail("C18", "base-block-missing", "%s: store reports base %d height %d but the block meta of the base cannot be loaded", ctx, base, height)
+		// narrow class: a crash inside a prune from base0 to retain left the base at an
+		// intermediate height (only a prune of more than one batch has such a state) whose
+		// block is gone although the next one is there
+		pc := s.pruneCtx
+		if (pc != nil && base > pc.base0 && base < pc.retain && bs.LoadBlockMeta(base+1) != nil) || s.baseHole == base {
+			baseSig = "base-deleted-by-intermediate-prune-flush"
+			s.baseHole = base
+		}
+		e.Fail("C18", baseSig, "%s: store reports base %d height %d but the block meta of the base cannot be loaded", ctx, base, height)
 	}
 	var prevID *types.BlockID
 	var prevH int64
@@ -209,7 +218,7 @@ func (s *sim) audit(n *node, ctx string, o auditOpts) {
 			if meta == nil {
 				sig := "meta-missing"
 				if h == base {
-					sig = "base-block-missing"
+					sig = baseSig
 				}
 				e.Fail("C18", sig, "%s: no block meta for height %d in [%d,%d]", ctx, h, base, height)
 			}
@@ -460,6 +469,19 @@ func (s *sim) checkPruned(n *node, oldBase, retain int64, oldIDs map[int64]types
 	}
 	if c := bs.LoadBlockCommit(oldBase - 1); c != nil {
 		e.Count("probe.stale_commit_below_first_base")
+	}
+	// nothing that the save of a pruned height created is left in the database (observed keys,
+	// no knowledge of the key layout). The very first height of the store is exempt: its save
+	// also creates the range descriptor and the (empty) commit "for" the height before it.
+	for h := oldBase; h < retain; h++ {
+		if h != s.init {
+			for _, k := range s.created[h] {
+				if has, _ := n.bdb.Has([]byte(k)); has {
+					e.Fail("C18", "prune-leak", "after pruning to %d the database still holds key %q that the save of height %d created", retain, k, h)
+				}
+			}
+		}
+		delete(s.created, h)
 	}
 }
 
